@@ -91,6 +91,20 @@ const (
 	// (prometheus_tsdb_mmap_chunk_corruptions_total > 0) and the WAL was replayed over whatever had
 	// been loaded before; any gauge may be off.
 	kindMmapDiscard = "head-gauges-wrong-after-mmapped-chunk-files-were-discarded-during-open"
+	// Right after a reopen that replayed a WAL in which a series record re-introduces a ref
+	// behind that ref's own eviction tombstone (the ref was reissued): the queued deletion hits
+	// the re-created series; any gauge may be off.
+	kindRefReintro = "head-gauges-wrong-after-replaying-wal-that-recreates-a-ref-behind-its-eviction-tombstone"
+	// Right after a reopen: the gauge exceeds the recount by at most the number of out-of-order
+	// chunk files of series named by WAL tombstone records (evicted series are re-created and
+	// deleted again by the replay; deleteSeriesByID subtracts only their in-order chunks).
+	kindTombOOO = "head-chunks-gauge-keeps-ooo-chunks-of-series-deleted-during-replay"
+	// Live head: after the step a series ref that existed before maps to OTHER labels (a new
+	// series was created under the ref of a live one: lastSeriesID had been restored too low,
+	// the C22 defect); the by-ref map lost a series, any gauge may be off.
+	kindLiveRefClash = "head-gauges-wrong-after-new-series-took-the-ref-of-a-live-series"
+	// A maintenance operation fails in a history in which a series ref collision was observed.
+	kindOpAfterClash = "operation-fails-after-series-ref-collision"
 	// tsdb.Open panics in loadChunkSnapshot on a damaged snapshot instead of falling back to the WAL.
 	kindSnapshotPanic = "panic-loading-damaged-chunk-snapshot"
 )
@@ -142,7 +156,10 @@ type stepCtx struct {
 	histExp     int                  // bucket entries added in place to histogram objects committed in this step
 	lateSeries  int                  // newHead: series records in the replayed WAL that follow sample records of the same series
 	refClashes  int                  // newHead: series refs that carry more than one label set in the replayed WAL
+	refReintro  int                  // newHead: series refs with a series record behind their own eviction tombstone
 	wblMarkers  int                  // newHead: m-map marker entries in the WBL
+	lateSamples int                  // newHead: samples logged in front of a late series record of their series
+	tombOOO     int                  // newHead: out-of-order chunks in the head chunk files that belong to refs named by WAL tombstone records
 	before      tsdb.VerifHeadCounts // recount before the step (live steps)
 	hasBefore   bool
 }
@@ -171,6 +188,8 @@ type state struct {
 	reported    map[string]bool
 	known       map[string]int
 	ctl         *sched.Controller
+	lastRefs    map[uint64]string // ref → labels at the previous check (same Head)
+	sawClash    bool
 	mid         []midObs // observations at hook points during the current step
 	watch       bool
 
@@ -256,7 +275,11 @@ func run(c *core.Case) {
 			err := e.Apply(op)
 			s.watch = false
 			if err != nil {
-				c.Violatef("operation-failed:"+strings.SplitN(fmt.Sprint(err), ":", 2)[0], "config {%s}\nstep %d (%s) failed: %v\nhistory: %s", cfg, i, op, err, tail(e.History()))
+				kind := "operation-failed:" + strings.SplitN(fmt.Sprint(err), ":", 2)[0]
+				if s.sawClash {
+					kind = kindOpAfterClash
+				}
+				c.Violatef(kind, "config {%s}\nstep %d (%s) failed: %v\nhistory: %s", cfg, i, op, err, tail(e.History()))
 				return
 			}
 			if e.DB == nil {
@@ -535,6 +558,17 @@ func (s *state) restart(where, step string, damage func() string) bool {
 	core.Must(err, "decode WAL")
 	ctx.lateSeries = headdisk.LateSeriesRecords(recs)
 	ctx.refClashes = len(headdisk.RefClashes(recs))
+	ctx.lateSamples = headdisk.LateSeriesSamples(recs)
+	ctx.refReintro = len(headdisk.ReintroducedRefs(recs))
+	if tomb := headdisk.TombstonedRefs(recs); len(tomb) > 0 {
+		if hcs, err := headdisk.ScanHeadChunks(e.Dir, nil); err == nil {
+			for _, hc := range hcs {
+				if hc.IsOOO && tomb[hc.Ref] {
+					ctx.tombOOO++
+				}
+			}
+		}
+	}
 	if wrecs, _, err := headdisk.ScanWBL(e.Dir); err == nil {
 		for _, r := range wrecs {
 			ctx.wblMarkers += len(r.MarkerRefs)
@@ -696,6 +730,24 @@ func (s *state) check(where string, ctx stepCtx) bool {
 	suffix := func() string {
 		return fmt.Sprintf("\nrecount %+v, held appenders %d, observed about the step %+v\nhistory: %s", rc, len(s.held), ctx, tail(e.History()))
 	}
+	// ref → labels must not change while a Head lives
+	refsNow := map[uint64]string{}
+	for ref, ls := range h.VerifSeriesRefs() {
+		refsNow[ref] = ls.String()
+	}
+	liveClash := ""
+	if !ctx.newHead {
+		for ref, was := range s.lastRefs {
+			if now, ok := refsNow[ref]; ok && now != was {
+				liveClash = fmt.Sprintf("ref %d: %s → %s", ref, was, now)
+			}
+		}
+	}
+	s.lastRefs = refsNow
+	if ctx.newHead && (ctx.refClashes > 0 || ctx.refReintro > 0) {
+		s.sawClash = true
+	}
+
 	gotChunks := g("prometheus_tsdb_head_chunks")
 	if gotChunks != math.Trunc(gotChunks) {
 		c.Violatef("chunks-gauge-mismatch", "config {%s}\nafter %s: prometheus_tsdb_head_chunks = %v is not an integer%s", s.cfg, where, gotChunks, suffix())
@@ -706,11 +758,21 @@ func (s *state) check(where string, ctx stepCtx) bool {
 	// ---- a reopen over damaged / ambiguous on-disk state (established by the harness from the
 	// files and from the corruption counter, not from the gauges): every number may be off; one
 	// narrow kind, then continue relative to what was observed
-	if ctx.newHead && (ctx.refClashes > 0 || mmapCorrupt > 0) {
+	if liveClash != "" {
+		s.sawClash = true
+		offS, offH := int(h.NumSeries())-rc.Series, int(h.NumNativeHistogramSeries())-rc.HistogramSeries
+		offSt, offB, offC := int(h.NumStaleSeries())-rc.StaleSeries, rc.HistogramBuckets-gotBuckets, int(gotChunks)-totalChunks
+		s.biasSeries, s.biasHistSer, s.biasStale, s.biasBuckets, s.biasChunks = offS, offH, offSt, offB, offC
+		s.knownf(kindLiveRefClash, "config {%s}\nafter %s: a series ref that existed before the step now maps to other labels (%s); gauge − recount: series %+d, histogram series %+d, stale series %+d, histogram buckets %+d, chunks %+d%s", s.cfg, where, liveClash, offS, offH, offSt, -offB, offC, suffix())
+	}
+	if ctx.newHead && (ctx.refClashes > 0 || ctx.refReintro > 0 || mmapCorrupt > 0) {
 		offS, offH := int(h.NumSeries())-rc.Series, int(h.NumNativeHistogramSeries())-rc.HistogramSeries
 		offSt, offB, offC := int(h.NumStaleSeries())-rc.StaleSeries, rc.HistogramBuckets-gotBuckets, int(gotChunks)-totalChunks
 		if offS != 0 || offH != 0 || offSt != 0 || offB != 0 || offC != 0 {
 			kind, why := kindMmapDiscard, fmt.Sprintf("prometheus_tsdb_mmap_chunk_corruptions_total = %v: the m-mapped chunk files were discarded while opening", mmapCorrupt)
+			if ctx.refReintro > 0 {
+				kind, why = kindRefReintro, fmt.Sprintf("the WAL that was replayed re-introduces %d series refs behind their own eviction tombstone", ctx.refReintro)
+			}
 			if ctx.refClashes > 0 {
 				kind, why = kindRefCollision, fmt.Sprintf("the WAL that was replayed holds %d series refs with more than one label set", ctx.refClashes)
 			}
@@ -819,18 +881,20 @@ func (s *state) check(where string, ctx stepCtx) bool {
 			if snapshotLoaded {
 				snapDef = rc.HeadChunks // head chunks installed by the snapshot loader are not counted
 			}
-			lower, upper := -snapDef-split, ctx.wblMarkers
+			lower, upper := -snapDef-split, ctx.wblMarkers+ctx.tombOOO
 			if ctx.lateSeries > 0 && !snapshotLoaded {
-				upper += totalOf(ctx.preClose) // head chunks rebuilt and dropped again: unknown from outside
+				upper += ctx.lateSamples // head chunks rebuilt and dropped again: at most one per replayed sample
 			}
 			switch {
 			case snapshotLoaded && -over == snapDef:
 				known(kindSnapshotChunks, fmt.Sprintf("deficit = the %d in-order head chunks installed by loadChunkSnapshot", rc.HeadChunks))
 			case over < lower || over > upper:
-				c.Violatef("chunks-gauge-mismatch", "config {%s}\nafter %s: prometheus_tsdb_head_chunks = %v but the recount gives %d; offset %+d outside [%d,%d] (snapshot-loaded head chunks %d, possible ooo split %d, wbl m-map markers %d, late series records %d)%s", s.cfg, where, gotChunks, totalChunks, over, lower, upper, snapDef, split, ctx.wblMarkers, ctx.lateSeries, suffix())
+				c.Violatef("chunks-gauge-mismatch", "config {%s}\nafter %s: prometheus_tsdb_head_chunks = %v but the recount gives %d; offset %+d outside [%d,%d] (snapshot-loaded head chunks %d, possible ooo split %d, wbl m-map markers %d, ooo chunk files of tombstoned refs %d, late series records %d with %d samples in front)%s", s.cfg, where, gotChunks, totalChunks, over, lower, upper, snapDef, split, ctx.wblMarkers, ctx.tombOOO, ctx.lateSeries, ctx.lateSamples, suffix())
 				ok = false
 			case over > 0 && ctx.lateSeries > 0 && !snapshotLoaded:
 				known(kindReplayReset, fmt.Sprintf("the replayed WAL has %d series records that follow sample records of the same series (replayed head chunks are dropped by such a record without adjusting the gauge)", ctx.lateSeries))
+			case over > 0 && ctx.tombOOO > 0 && over > ctx.wblMarkers:
+				known(kindTombOOO, fmt.Sprintf("the head chunk files hold %d out-of-order chunks of series named by WAL tombstone records (the replay re-creates such a series, attaches its chunks and deletes it again, subtracting only the in-order chunks)", ctx.tombOOO))
 			case over > 0:
 				known(kindWBLMarker, fmt.Sprintf("the replayed WBL has %d m-map markers (each clears the out-of-order head chunk rebuilt so far without adjusting the gauge)", ctx.wblMarkers))
 			case snapDef > 0:
